@@ -190,6 +190,20 @@ def main():
                 res['int_coord'] = [float(assemble.integrate(kvs, (lambda c: (lambda *X: X[c] + 0.0))(c), f_physical=True, geo=geo)).hex()
                                     for c in range(d)]
                 res['inner_coord0'] = save(assemble.inner_products(kvs, lambda *X: X[0] + 0.0, f_physical=True, geo=geo))
+                if case.get('fpar'):
+                    # both values of f_physical with NON-constant data on this geometry:
+                    # parametric integrand (the documented default f_physical=False, and passed explicitly)
+                    fp = polyfun_nd(case['fpar'])
+                    res['int_par_default'] = float(assemble.integrate(kvs, fp, geo=geo)).hex()
+                    res['int_par'] = float(assemble.integrate(kvs, fp, f_physical=False, geo=geo)).hex()
+                    res['inner_par_default'] = save(assemble.inner_products(kvs, fp, geo=geo))
+                    res['inner_par'] = save(assemble.inner_products(kvs, fp, f_physical=False, geo=geo))
+                    # physical integrand x_0 * x_1
+                    fq = lambda *X: X[0] * X[1]
+                    res['int_phys_prod'] = float(assemble.integrate(kvs, fq, f_physical=True, geo=geo)).hex()
+                    res['inner_phys_prod'] = save(assemble.inner_products(kvs, fq, f_physical=True, geo=geo))
+                    # the same polynomial data WITHOUT geometry (parameter domain) afterwards
+                    res['int_par_nogeo'] = float(assemble.integrate(kvs, fp)).hex()
                 if case.get('stiffness'):
                     K = assemble.stiffness(kvs, geo)
                     res['K'] = save(K.toarray())
